@@ -20,12 +20,14 @@ package exif2
 // The offset slot re-serialised in the tag's own byte order: together with tagFromBuffer (BaseOffset 0) and the
 // injectivity lemmas le32_injective/be32_injective this gives back the ORIGINAL four slot bytes in file order, which is
 // where BYTE/ASCII/SHORT values sit for either order.
+// (C04: all four scratch bytes are defined by this call - the decoders of embedded values read up to four bytes of the pooled
+// scratch buffer after it, whatever the value's own size.)
 //@ func Tag.EmbeddedValue
-//@   props C07 C03 C01
+//@   props C07 C03 C01 C04
 //@   requires len(buf) >= 4
 //@   modifies mem(buf)
-//@   ensures [C07] t.ByteOrder == utils.BigEndian ==> be32(buf, 0) == t.ValueOffset
-//@   ensures [C07] t.ByteOrder != utils.BigEndian ==> le32(buf, 0) == t.ValueOffset
+//@   ensures [C07 C04] t.ByteOrder == utils.BigEndian ==> be32(buf, 0) == t.ValueOffset
+//@   ensures [C07 C04] t.ByteOrder != utils.BigEndian ==> le32(buf, 0) == t.ValueOffset
 
 // ---- C07: decoders of values embedded in the offset slot read the slot bytes in FILE order (left-justified values),
 // so an II and an MM block that embed the same value decode alike. slotByte0/slotShort0: /verif/specs/exif.spec.
